@@ -233,6 +233,21 @@ def run(ctx):
         r5.check(not cut, "admin-ban-reaches-every-server-of-the-host", "get_addresses_from_host (callers: %s) collects every address of the host" % [x.split("::")[-2] for x in callers_],
                  "get_addresses_from_host cuts its search short with %s: admin BAN / UNBAN <host> reach only the first server of that host in a shard - `UNBAN host` is accepted and the repaired replica stays banned for the whole ban_time "
                  "when it is not the host's first entry, `BAN host` leaves the other replicas of the host in rotation" % sorted({c.name.split("::")[-1] for c in cut}), cut[0].where() if cut else "")
+    # ... and BAN <host> <seconds> is the administrator's word on every one of them: the ban call of admin::ban does not depend on what the list says already. A replica
+    # that is on the list for a failure (or an earlier, shorter BAN) is banned again with the given duration - or it is back in service after ban_time (D88)
+    ab = F.body("pgcat::admin::ban::{closure#0}")
+    if ab is None:
+        r5.missing("admin::ban")
+    else:
+        bc = [c for c in ab.calls("pgcat::pool::ConnectionPool::ban") if any(o.kind == "agg" and str(o.extra.get("variant", "")) == "AdminBan" for o in origins(ab, c.args[2], taint=True))]
+        if not bc:
+            r5.missing("pool.ban(.., BanReason::AdminBan(..)) in admin::ban")
+        else:
+            Tb, Fb, sites_b = call_bool_edges(ab, "pgcat::pool::ConnectionPool::is_banned", switches_cache=switches(ab))
+            gated = [c for c in bc if (Tb | Fb) and ab.uncrossed_path([0], [c.block], edges=Tb | Fb) is None]
+            r5.check(not gated, "admin-ban-whatever-the-list-says", "admin BAN bans every address of the host, banned already or not (%d ban call(s), %d is_banned test(s))" % (len(bc), len(sites_b)),
+                     "admin BAN skips an address that is_banned(): a replica on the list for a failed health check keeps that entry - `BAN host 3600` is answered with no row, and the replica is back in service "
+                     "after ban_time instead of the administrator's duration", gated[0].where() if gated else "")
     # ---------------- R6 server waits are bounded
     r6 = ctx.rule("C07-R6", "the health check and every reply awaited for a client are under a timeout taken from the configuration", floor=2)
     if rh:
